@@ -378,6 +378,12 @@ func suiteLex(g *gen, e *emitter, n int) {
 						n--
 					}
 				}
+				// the same host with a separator missing: no `://`, no colon before the port
+				for _, s := range []string{sch + h + ":8080", sch + h, sch + "://" + h + "8080", sch + ":" + h, sch + "//" + h} {
+					lexPattern(e, s)
+					lexParse(e, s)
+					n--
+				}
 			}
 		}
 	}
